@@ -195,7 +195,7 @@ def isPath(s):
        1.2
 
     """
-    if re.match(r'^([a-zA-Z_]\w*)+([.][a-zA-Z_]\w*)*$|^([.][a-zA-Z_]\w*)+$',s):
+    if re.match(r'^([a-zA-Z_]\w*)([.][a-zA-Z_]\w*)*$|^([.][a-zA-Z_]\w*)+$',s):
         return True
     else:
         return False
